@@ -51,6 +51,9 @@ func main() {
 		}
 		os.Setenv("VERIF_NO_EVIDENCE", "1")
 		os.Exit(runProp(r.Property, "quick"))
+	case "dbkeys":
+		dbkeysCmd()
+		return
 	case "bigmut":
 		bigmutCmd()
 		return
